@@ -15,7 +15,11 @@
    ([w32]).  Signature recovery, the stake look-up (getStakeFn), the credential
    check (verifySortitionFn), isValidatorFn, getMaxPriorityFn, blockInCacheFn and
    the parameter manager are oracles: their answers are fields of the op that
-   triggers the call, or of [env] / the environment part of the state.
+   triggers the call, or of [env] / the environment part of the state.  The
+   credential check is the table [creds] of the environment applied to the
+   message's credential (sender, round, index, type, proof) and compared with the
+   seat count the message claims: the weight that gets recorded is the verifier's
+   output for the credential, never an input taken on trust.
 
    Pointer structure.  v.votesMgr always aliases
    votesWrappers.GetWrapper(v.round, v.roundIndex) (it is assigned from it in
@@ -268,7 +272,12 @@ Record env := mkEnv {
      both off the implementation by replaying the two witnesses before it
      generates anything (fixes/C03_*.md) *)
   fix_latch : bool;   (* processVoteMsg clears a latched quorum that a double voter's removal broke *)
-  fix_stale : bool    (* verifySortition no longer reports a stale invalid credential as verified *)
+  fix_stale : bool;   (* verifySortition no longer reports a stale invalid credential as verified *)
+  (* the sortition verifier *)
+  srv_rule : bool;    (* verifySortitionFn is Server.verifySortition (its rule for stale messages applies) *)
+  creds : list (N * N * N * vtype * N)
+      (* VrfVerifySortition as a table: (sender, round, index, type) -> the seat count the
+         sender's own sortition proof for that step yields (absent = no seat) *)
 }.
 
 Fixpoint own_view (l : list (N * N * vtype * (N * N * vkind))) (r i : N) (t : vtype) : option (N * N * vkind) :=
@@ -487,10 +496,6 @@ Definition update_context (E : env) (v : voter) (r i step : N) (cert : bool) (ma
 Definition server_verify (vrf_ok : bool) (mr mi : N) (srv : N * N) : bool :=
   vrf_ok || (mr <? fst srv) || (mi <? snd srv).
 
-Inductive cred :=
-| CredGiven (ok : bool)        (* verifySortitionFn's answer *)
-| CredVrf (vrf_ok : bool).     (* verifySortitionFn = Server.verifySortition; VrfVerifySortition's answer *)
-
 Record msg := mkMsg {
   m_status : status;
   m_type : vtype;
@@ -501,22 +506,39 @@ Record msg := mkMsg {
   m_votes : N;             (* Vote.Votes *)
   m_novote : bool;         (* msg.Vote == nil *)
   m_stake : option (N * vkind);   (* getStakeFn: threshold, kind; None = error *)
-  m_cred : cred
+  m_proof : N              (* Vote.Proof: 1 = the sender's sortition proof for (round, index, type);
+                              anything else (garbage, a proof for another step) does not verify *)
 }.
+
+(* the weight the sortition verifier computes from the message's credential
+   (key, round, index, step, proof) - not the weight the message claims *)
+Fixpoint cred_lookup (l : list (N * N * N * vtype * N)) (a r i : N) (t : vtype) : option N :=
+  match l with
+  | [] => None
+  | (a', r', i', t', w) :: rest =>
+    if (a' =? a) && (r' =? r) && (i' =? i) && vt_eqb t' t then Some w else cred_lookup rest a r i t
+  end.
+
+Definition cred_weight (E : env) (m : msg) : option N :=
+  if m_proof m =? 1 then cred_lookup (creds E) (m_sender m) (m_round m) (m_idx m) (m_type m) else None.
+
+(* VrfVerifySortition: the proof verifies, wins at least one seat, and the
+   claimed seat count is exactly the computed one *)
+Definition cred_valid (E : env) (m : msg) : bool :=
+  match cred_weight E m with
+  | Some w => (0 <? w) && (w =? m_votes m)
+  | None => false
+  end.
 
 (* the voter's view of verifySortitionFn's answer: accepted, rejected (the
    sender is reported invalid), or - only with the repair - dropped silently *)
 Inductive cverdict := CvOk | CvBad | CvDrop.
 
 Definition cred_verdict (E : env) (v : voter) (m : msg) : cverdict :=
-  match m_cred m with
-  | CredGiven b => if b then CvOk else CvBad
-  | CredVrf b =>
-    if b then CvOk
-    else if server_verify false (m_round m) (m_idx m) (v_srv v)
-         then (if fix_stale E then CvDrop else CvOk)
-         else CvBad
-  end.
+  if cred_valid E m then CvOk
+  else if srv_rule E && server_verify false (m_round m) (m_idx m) (v_srv v)
+       then (if fix_stale E then CvDrop else CvOk)
+       else CvBad.
 
 Definition cred_ok (E : env) (v : voter) (m : msg) : bool :=
   match cred_verdict E v m with CvOk => true | _ => false end.
